@@ -76,12 +76,15 @@ def _validate(ck, sw, name, beh, label, mode=""):
     return summ, bads, trace
 
 
-def _judge(ck, sw, name, beh, label):
+MODELBAD_RE = re.compile(r'^<<"MODELBAD", "([^"]*)", (".*")>>\s*$')
+
+
+def _judge(ck, sw, name, beh, label, drift=True):
     summ, bads, trace = _validate(ck, sw, name, beh, label)
     ck.cov["evaluations"] += summ["scenarios"]
     ck._keys.update(summ["notes"]["keys"])
     ck.cov["traces_validated_against_impl"] += summ["scenarios"] - len({b[0] for b in bads})
-    if summ["drift"]:
+    if summ["drift"] and drift:   # (regression scripts carry the predictions of the pre-repair model)
         ck.cov["impl_drift"].append({"run": label, "steps_differing_from_model": summ["drift"],
                                      "first": summ.get("first_drift")})
     for sid, i, key in bads:
@@ -161,8 +164,9 @@ def run(ck):
                  dict(MaxObj=1, MaxOps=5, MaxClose=2, MaxPlug=0, Kinds=kinds(ALL_KINDS), WithFail="TRUE", WithUninj="FALSE",
                       WithGc="TRUE", WithRehs="TRUE", TruncK="{1}")),
                 ("two objects: repeated closing calls, stale deregistration",
-                 dict(MaxObj=2, MaxOps=6 if ck.tier != "quick" else 5, MaxClose=2, MaxPlug=1, Kinds=kinds(["timer", "lst", "pkt", "adp", "ws"]),
-                      WithFail="FALSE", WithUninj="FALSE", WithGc=("TRUE" if ck.tier != "quick" else "FALSE"), WithRehs="FALSE", TruncK="{1}")))):
+                 dict(MaxObj=2, MaxOps=6, MaxClose=2, MaxPlug=1,
+                      Kinds=kinds(["timer", "lst", "adp", "ws"] if ck.tier == "quick" else ["timer", "tcp", "lst", "pkt", "adp", "ws"]),
+                      WithFail="FALSE", WithUninj="FALSE", WithGc="TRUE", WithRehs="FALSE", TruncK="{1}")))):
             consts2 = dict(consts2)
             consts2.update(BEFORE_REPAIR)
             c2 = vlib.cfg_with(sw, "FdTableImpl_mc.cfg", consts2, outname="gen_before_%d.cfg" % idx, drop=["ACTION_CONSTRAINT"],
@@ -172,6 +176,22 @@ def run(ck):
                 raise vlib.Inconclusive("FdTableImpl before-repair: %s\n%s" % (r2.violated or r2.error, r2.tail()))
             ck.add_tlc("FdTableImpl with every BUG_* = TRUE (design before the repairs), " + nm, r2, consts2)
             reached |= {line.split('"')[3] for line in r2.lines('<<"MODELBAD"')}
+            # every history the pre-repair model rejects is a regression script for the real code: in the repaired
+            # model many of them end in states that coincide with harmless ones (VIEW), so the transition cover of the
+            # repaired model need not contain them
+            beh = os.path.join(ck.work, "beh_regress_%d.jsonl" % idx)
+            seen = set()
+            with open(beh, "w") as f:
+                for line in r2.lines('<<"MODELBAD"'):
+                    m = MODELBAD_RE.match(line)
+                    if m:
+                        script = json.loads(m.group(2))
+                        if script not in seen:
+                            seen.add(script)
+                            f.write(script + "\n")
+            if seen:
+                _judge(ck, sw, "regress_%d" % idx, beh, "regression scripts (histories the pre-repair model rejects), %s: %d scripts" % (nm.split(":")[0], len(seen)),
+                       drift=False)
         ck.cov["model_rules_reached_before_repair"] = sorted(reached)
 
     cs = configs(ck.tier, ck.seed)
